@@ -1016,7 +1016,7 @@ pub fn run(ctx: &Ctx) -> ! {
     }
     let space = perm_space(ctx.pick(4, 6));
     let nperm = space.len() as u64;
-    let nrandom = ctx.pick(6000u64, 150_000);
+    let nrandom = ctx.pick(20_000u64, 300_000);
     let c2 = ctx.clone();
     let mut report = vcore::run_parallel(
         ctx,
